@@ -218,7 +218,8 @@ class Runner:
                         p.wait(); rc = 98; break
                     if time.time() > deadline:
                         os.killpg(p.pid, signal.SIGKILL); p.wait(); rc = None
-                        self.notes.append(f"shard {i} stopped at the wall budget ({budget}s): inconclusive for the remaining cases")
+                        if os.path.exists(f"{wd}/fail.case"): rc = 1   # stopped while shrinking a failure: the (unminimised) failing case was saved
+                        else: self.notes.append(f"shard {i} stopped at the wall budget ({budget}s): inconclusive for the remaining cases")
             sp = f"{wd}/stats.json"
             if os.path.exists(sp):
                 try: stats.append(json.load(open(sp)))
